@@ -9,6 +9,8 @@ forests over the ACL's row alphabet:  (diff, patch) = annet.api._diff_and_patch(
      ancestors all survive, is still there with an identical subtree;
  (c) every covered row of `old` whose governing rule is cant_delete for all generators, and whose ancestors survive,
      is still there.
+All pairs of one ACL run on ONE compiled ACL object (as the lru_cached compile_acl_text hands it out in production); a
+violation that a freshly compiled object does not show is reported with the earlier pair that makes it appear (history).
 """
 from __future__ import annotations
 
@@ -65,7 +67,7 @@ def blocks(tier, seed):
     A = aclgen.acls(tier)
     idx = list(range(len(A)))
     if tier == "quick":
-        idx = [i for i in idx if i % 2 == 0 or A[i][0].startswith(("B-", "iface", "top", "depth", "catch", "two"))]
+        idx = [i for i in idx if i % 2 == 0 or A[i][0].startswith(("B-", "iface", "top", "depth", "catch", "two", "overlap-specific"))]
     out = []
     for v in (["huawei"] if tier == "quick" else list(VENDORS)):
         for i in idx:
@@ -198,6 +200,32 @@ def run_block(block, ctx):
     if "x" not in rows:
         rows[-1] = "x"
     compiled = compile_acl_text(text, vendor)
+    done = []            # the (old, new) pairs already run on this compiled ACL object, in order
+    minimised = set()
+
+    def report(sig, case, detail=""):
+        """a violation seen on the long-lived compiled ACL: if a freshly compiled one does not show it, the pairs run
+        before are part of the case (history) - the shortest one-pair history that reproduces it is looked for"""
+        key = repr(sorted(sig.items()))
+        if key in minimised:
+            return ctx.violation(sig, dict(case, history_not_minimised=True), detail)
+        minimised.add(key)
+
+        def shows(history):
+            compile_acl_text.cache_clear()
+            fresh = compile_acl_text(text, vendor)
+            for h_old, h_new in history:
+                judge(vendor, level, fresh, text, h_old, h_new, lambda *a, **k: None)
+            got = []
+            judge(vendor, level, fresh, text, case["old"], case["new"], lambda s_, c_, d_="": got.append(s_))
+            return sig in got
+        if shows([]):
+            return ctx.violation(sig, case, detail)
+        for h in done[:4000]:
+            if shows([h]):
+                return ctx.violation(dict(sig, after_history=True), dict(case, history=[list(h)]),
+                                     "after %r on the same compiled ACL: %s" % (h, detail))
+        ctx.violation(dict(sig, after_history=True), dict(case, history=[list(h) for h in done[-200:]], history_not_minimised=True), detail)
     fs = [f for f in mcenum.forests(rows, 3, 3)]
     # thorough: the full 3x3-node product for huawei, (3,2) for the second vendor
     fs_new = fs if (ctx.tier == "thorough" and vendor == "huawei") else [f for f in mcenum.forests(rows, 2, 3)]
@@ -205,7 +233,8 @@ def run_block(block, ctx):
         if ctx.expired():
             return
         for new in fs_new:
-            n, interesting = judge(vendor, level, compiled, text, old, new, ctx.violation)
+            n, interesting = judge(vendor, level, compiled, text, old, new, report)
+            done.append((old, new))
             ctx.evals += 1
             ctx.states += 1
             if n and interesting:
@@ -220,8 +249,13 @@ def replay(case):
     # rebuild the reference level from the text: parse our own rendering
     level = level_from_text(case["acl_text"])
     out = []
-    judge(case["vendor"], level, compile_acl_text(case["acl_text"], case["vendor"]), case["acl_text"], case["old"], case["new"],
-          lambda sig, c, d="": out.append((sig, d)))
+    compile_acl_text.cache_clear()
+    compiled = compile_acl_text(case["acl_text"], case["vendor"])
+    for h_old, h_new in case.get("history", []):
+        judge(case["vendor"], level, compiled, case["acl_text"], h_old, h_new, lambda *a, **k: None)
+    hist = bool(case.get("history"))
+    judge(case["vendor"], level, compiled, case["acl_text"], case["old"], case["new"],
+          lambda sig, c, d="": out.append((dict(sig, after_history=True) if hist else sig, d)))
     return out
 
 
